@@ -22,7 +22,11 @@
 
 package actor
 
-import "sync/atomic"
+import (
+	"sync/atomic"
+
+	"github.com/tochemey/goakt/v4/internal/verifhook"
+)
 
 // Dispatch state values for the per-actor scheduling state machine.
 //
@@ -65,15 +69,18 @@ func (s *dispatchState) Load() uint32 {
 // whereas an unconditional CAS would cost an RFO (request for ownership)
 // on every call, bouncing the line across cores for no effect.
 func (s *dispatchState) TrySchedule() bool {
+	verifhook.At("ds.ts.load", s, 0, 0)
 	if s.v.Load() != dispatchIdle {
 		return false
 	}
+	verifhook.At("ds.ts.cas", s, 0, 0)
 	return s.v.CompareAndSwap(dispatchIdle, dispatchScheduled)
 }
 
 // TakeForProcessing attempts the Scheduled -> Processing transition.
 // Called by the worker that pulled the actor off the ready queue.
 func (s *dispatchState) TakeForProcessing() bool {
+	verifhook.At("ds.take.cas", s, 0, 0)
 	return s.v.CompareAndSwap(dispatchScheduled, dispatchProcessing)
 }
 
@@ -81,6 +88,7 @@ func (s *dispatchState) TakeForProcessing() bool {
 // Called when a worker rotates off an actor that still has pending
 // messages after exhausting its throughput budget.
 func (s *dispatchState) YieldToScheduled() {
+	verifhook.At("ds.yield", s, 0, 0)
 	s.v.Store(dispatchScheduled)
 }
 
@@ -89,5 +97,6 @@ func (s *dispatchState) YieldToScheduled() {
 // race-safe reclaim) and by the actor restart path after the caller
 // has confirmed no worker holds the actor.
 func (s *dispatchState) reset() {
+	verifhook.At("ds.reset", s, 0, 0)
 	s.v.Store(dispatchIdle)
 }
